@@ -119,6 +119,9 @@ Vector<std::complex<T>> permanent_laplace_cpp(
 
     // determine the concurrency of the calculation
     unsigned int n_threads = std::thread::hardware_concurrency();
+    // NOTE: `hardware_concurrency` may return 0 if the value is not computable.
+    if (n_threads == 0)
+        n_threads = 1;
     auto concurrency = static_cast<int64_t>(n_threads * 4);
     concurrency = concurrency < idx_max ? concurrency : idx_max;
 
